@@ -9,7 +9,7 @@ import re
 import unicodedata
 
 import implrun  # noqa: F401  (sets sys.path)
-from core import Exn, slit, zlit, optz, clist, blit
+from core import slit, zlit, clist, blit
 
 IMPORTS = "Require Import PW.model.HeaderCodec."
 MAX_TIME = 253402300800
@@ -39,7 +39,58 @@ def real_float_ok(text):
         return False
 
 
+class Exn:
+    """an exception outcome (class name only)"""
+    def __init__(self, name):
+        self.name = name
+
+    def __repr__(self):
+        return "Exn(%s)" % self.name
+
+    def __eq__(self, other):
+        return isinstance(other, Exn) and other.name == self.name
+
+    def __hash__(self):
+        return hash(self.name)
+
+
 # ------------------------------------------------------------ Coq literals
+def zexpr(n):
+    """Z term for n; Coq reads numerals of thousands of digits very slowly,
+    so long ones are written by Horner's rule over 100-digit chunks"""
+    if -10 ** 120 < n < 10 ** 120:
+        return zlit(n)
+    text = str(n)
+    head = len(text) % 100 or 100
+    term = text[:head]
+    for k in range(head, len(text), 100):
+        term = "(%s * 10^100 + %d)" % (term, int(text[k:k + 100]))
+    return term
+
+
+def optz(x):
+    return "None" if x is None else "(Some %s)" % zexpr(x)
+
+
+def tov(obj):
+    """expected value as a term of type V (same shapes as core.to_v)"""
+    if isinstance(obj, Exn):
+        return '(VX "%s")' % obj.name
+    if obj is None:
+        return "VN"
+    if isinstance(obj, bool):
+        return "(VB %s)" % blit(obj)
+    if isinstance(obj, int):
+        return "(VZ %s)" % zexpr(obj)
+    if isinstance(obj, str):
+        return "(VS %s)" % slit(obj)
+    if isinstance(obj, (list, tuple)):
+        return "(VL %s)" % clist(tov(x) for x in obj)
+    if isinstance(obj, dict):
+        return "(VL %s)" % clist(tov((k, v)) for k, v in obj.items())
+    raise TypeError("cannot render %r" % (obj,))
+
+
 def ostr(s):
     return "None" if s is None else "(Some %s)" % slit(s)
 
@@ -71,6 +122,12 @@ def has_foreign_digit(s):
 def lower_in_model(s):
     """lower() is modelled for Latin-1; above it must be the identity"""
     return all(ord(c) < 256 or c.lower() == c for c in s)
+
+
+def correspond(ctx, name, cases):
+    ctx.correspondence(name, IMPORTS,
+                       [(term, tov(exp), pay) for term, exp, pay in cases],
+                       list)
 
 
 def outcome(fun, *args):
@@ -287,9 +344,9 @@ def run(ctx):
         units = rng.choice(UNITS)
         text = str(H.ContentRange(a, b, "*" if full is None else full, units))
         cases.append(("run_content_range %s %s %s %s" % (
-            slit(units), zlit(a), zlit(b), optz(full)), text,
+            slit(units), zexpr(a), zexpr(b), optz(full)), text,
             ("content_range", text[:100])))
-    ctx.correspondence("range", IMPORTS, cases, list)
+    correspond(ctx, "range", cases)
 
     # ------------------------------------------------------------- dates
     cases = []
@@ -344,7 +401,7 @@ def run(ctx):
         cases.append(("run_http_to_time %s" % slit(text),
                       outcome(H.http_to_time, text), ("http_to_time", text)))
         ctx.count("date:mutated")
-    ctx.correspondence("date", IMPORTS, cases, list)
+    correspond(ctx, "date", cases)
 
     # ------------------------------------------------------- negotiation
     cases = []
@@ -425,7 +482,7 @@ def run(ctx):
             H.__dict__.pop("float", None)
         else:
             H.float = real
-    ctx.correspondence("nego", IMPORTS, cases, list)
+    correspond(ctx, "nego", cases)
 
     # -------------------------------------------------------- parameters
     cases = []
@@ -532,7 +589,7 @@ def run(ctx):
             cases.append(("run_parseparam %s" % slit(text),
                           outcome(lambda s: list(H._parseparam(s)), text),
                           ("_parseparam", text[:200])))
-    ctx.correspondence("param", IMPORTS, cases, list)
+    correspond(ctx, "param", cases)
 
     return ctx.finish(
         "ranges: sets of 0..5 first-last/first-/-suffix items over an integer "
